@@ -126,10 +126,12 @@ var (
 	NumSmall = Lit("0", "1", "2", "10")
 	NumTiny  = Lit("0", "1")
 	// Magnitudes: values at which packed keys, narrowed integers and digit-count shortcuts change behaviour.
-	Magnitudes  = Lit("0", "1", "2", "9", "10", "65535", "65536", "65537", "131072", "20240101", "2147483648", "4294967296", "4294967297")
-	NumBoundary = Lit("0", "1", "2", "9", "10", "11", "99", "100", "999", "1000", "65535", "2147483647")
-	NumLeadZero = Lit("00", "01", "010")
-	NumOverflow = Lit("2147483648", "9223372036854775807", "9223372036854775808", "18446744073709551615", "18446744073709551616", "000000000000000000002")
+	Magnitudes = Lit("0", "1", "2", "9", "10", "65535", "65536", "65537", "131072", "20240101", "2147483648", "4294967296", "4294967297", "9007199254740992", "9007199254740993")
+	// LeadingZeros: zero-padded spellings (octal readers, fraction rules, width-dependent compares)
+	LeadingZeros = Lit("00", "01", "07", "08", "09", "010", "0010", "011")
+	NumBoundary  = Lit("0", "1", "2", "9", "10", "11", "99", "100", "999", "1000", "65535", "2147483647")
+	NumLeadZero  = Lit("00", "01", "010")
+	NumOverflow  = Lit("2147483648", "9223372036854775807", "9223372036854775808", "18446744073709551615", "18446744073709551616", "000000000000000000002")
 )
 
 // Nums returns the number tokens for a tier-dependent richness level.
